@@ -1,6 +1,7 @@
 package world
 
 import (
+	"os"
 	"runtime"
 	"sync"
 )
@@ -29,12 +30,22 @@ type Sched struct {
 	Digest   uint64 // folds the sequence of running task ids (distinct interleavings measure)
 	Overlap  int64  // switches made while the task switched away from was inside an operation
 	wg       sync.WaitGroup
+
+	// scheduling points inside the library (instrumented build): the running task is identified by
+	// its goroutine id, because the library's own helper goroutines reach the same call sites
+	goids      []uint64
+	SyncEvents int64 // synchronisation operations reached by task goroutines
+	LockWaits  int64 // forced hand-overs because a lock was held by a parked task
+
+	// Free: no serialisation at all - the tasks run as the Go scheduler lets them (used only to tell
+	// a stall of the simulator from a stall of the library, see simctl stallIsArtefact)
+	Free bool
 }
 
 // NewSched prepares a schedule for n tasks. switchP/target are the pre-drawn decisions (from the
 // sched lane); once they are used up the running task keeps running until it finishes.
 func NewSched(n int, switchP []uint8, target []uint16) *Sched {
-	return &Sched{n: n, turn: -2, done: make([]bool, n), switchP: switchP, target: target, Digest: 0xcbf29ce484222325}
+	return &Sched{Free: os.Getenv("VERIF_FREERUN") == "1", n: n, turn: -2, done: make([]bool, n), goids: make([]uint64, n), switchP: switchP, target: target, Digest: 0xcbf29ce484222325}
 }
 
 //go:norace
@@ -93,6 +104,9 @@ func (s *Sched) choose(cur int) int {
 
 //go:norace
 func (s *Sched) park(id int) {
+	if s.Free {
+		return
+	}
 	for s.turn != int32(id) {
 		runtime.Gosched()
 	}
@@ -102,6 +116,9 @@ func (s *Sched) park(id int) {
 //
 //go:norace
 func (s *Sched) Yield(id int) {
+	if s.Free {
+		return
+	}
 	s.Events++
 	next := s.choose(id)
 	if next != id && next >= 0 {
@@ -115,6 +132,9 @@ func (s *Sched) Yield(id int) {
 
 //go:norace
 func (s *Sched) finish(id int) {
+	if s.Free {
+		return
+	}
 	s.done[id] = true
 	next := s.choose(-1)
 	if next >= 0 {
@@ -139,6 +159,7 @@ func (s *Sched) Run(body func(id int)) {
 		id := i
 		go func() {
 			defer s.wg.Done()
+			s.setGoid(id)
 			s.park(id)
 			defer s.finish(id)
 			body(id)
@@ -146,4 +167,76 @@ func (s *Sched) Run(body func(id int)) {
 	}
 	s.start()
 	s.wg.Wait()
+}
+
+// goid returns the id of the calling goroutine (parsed from the first line of its stack trace:
+// "goroutine 123 [running]:").
+func goid() uint64 {
+	var b [40]byte
+	n := runtime.Stack(b[:], false)
+	var id uint64
+	for i := len("goroutine "); i < n && b[i] >= '0' && b[i] <= '9'; i++ {
+		id = id*10 + uint64(b[i]-'0')
+	}
+	return id
+}
+
+//go:norace
+func (s *Sched) setGoid(id int) { s.goids[id] = goid() }
+
+// current returns the id of the running task if the caller is that task's goroutine, else -1
+// (a helper goroutine started by the library, or code outside Run).
+//
+//go:norace
+func (s *Sched) current() int {
+	id := int(s.turn)
+	if id < 0 || id >= s.n || s.goids[id] != goid() {
+		return -1
+	}
+	return id
+}
+
+// SyncYield is a scheduling point reached from inside the library (instrumented build).
+//
+//go:norace
+func (s *Sched) SyncYield(site string) {
+	if s.Free {
+		return
+	}
+	id := s.current()
+	if id < 0 {
+		return
+	}
+	s.SyncEvents++
+	s.Yield(id)
+}
+
+// LockBlocked is called when the running task found a lock taken: whoever holds it is parked,
+// so the baton goes to the next runnable task (round robin, no decision consumed). When no other
+// task is runnable the lock can never be released: the caller keeps spinning, which is the
+// deadlock it would be outside the simulator, and the watchdog reports it.
+//
+//go:norace
+func (s *Sched) LockBlocked(site string) {
+	if s.Free {
+		runtime.Gosched()
+		return
+	}
+	id := s.current()
+	if id < 0 {
+		runtime.Gosched()
+		return
+	}
+	for k := 1; k < s.n; k++ {
+		next := (id + k) % s.n
+		if !s.done[next] {
+			s.LockWaits++
+			s.Switches++
+			s.fold(next)
+			s.turn = int32(next)
+			s.park(id)
+			return
+		}
+	}
+	runtime.Gosched()
 }
